@@ -22,8 +22,37 @@ pub fn seed_for(rng: &mut Prng, tag: u8) -> Vec<u8> {
     s
 }
 
+/// the tower of NTRUSolve on coefficient lists: field norm, lift, Galois adjoint and the lifting step
+fn tower_ops(tier: &str, rng: &mut Prng, ops: &mut Vec<Case>) {
+    let reps = if tier == "thorough" { 40 } else { 4 };
+    for logn in 1..=10usize {
+        let n = 1usize << logn;
+        if n > 64 && tier != "thorough" && n != 512 {
+            continue;
+        }
+        for r in 0..reps {
+            let lim = if r % 3 == 0 { 3 } else { 200 };
+            let mut f: Vec<i64> = (0..n).map(|_| rng.range(-lim, lim)).collect();
+            let g: Vec<i64> = (0..n).map(|_| rng.range(-lim, lim)).collect();
+            if r == 1 {
+                f.iter_mut().skip(1).for_each(|x| *x = 0);
+            }
+            if r == 2 {
+                f.iter_mut().step_by(2).for_each(|x| *x = 0);
+            }
+            ops.push(Case::new(format!("field_norm {}", ints(&f))));
+            ops.push(Case::new(format!("galois_adjoint {}", ints(&f))));
+            ops.push(Case::new(format!("lift_poly {}", ints(&f[..n / 2]))));
+            let cf: Vec<i64> = (0..n / 2).map(|_| rng.range(-(1 << 20), 1 << 20)).collect();
+            let cg: Vec<i64> = (0..n / 2).map(|_| rng.range(-(1 << 20), 1 << 20)).collect();
+            ops.push(Case::new(format!("lift_step {} {} {} {}", ints(&f), ints(&g), ints(&cf), ints(&cg))));
+        }
+    }
+}
+
 pub fn generate_c04(tier: &str, rng: &mut Prng) -> Vec<Case> {
     let mut ops = vec![];
+    tower_ops(tier, rng, &mut ops);
     let per = if tier == "thorough" { 48 } else { 3 };
     for n in [512usize, 1024] {
         for i in 0..per {
@@ -35,6 +64,7 @@ pub fn generate_c04(tier: &str, rng: &mut Prng) -> Vec<Case> {
             ops.push(Case::new(line));
             ops.push(Case::traced(format!("key_check {n} {} {} {} {} {}", ints(&f), ints(&g), ints(&cf), ints(&cg), ints(&k.h)), "ok".to_string()));
         }
+        // (see below for the special seeds)
         // seeds whose candidate stream touches one of ntru_gen's guards (corpus/special_seeds.txt): a candidate with a zero
         // NTT slot, a Gram-Schmidt norm next to the bound, coefficients at the range limits
         for (kind, q) in [("ntt_zero", 6), ("gamma_below", 4), ("gamma_above", 4), ("range_fg", 3), ("range_capital", 3)] {
@@ -87,6 +117,61 @@ pub fn oracle_c04(op: &[&str], out: &str) -> Verdict {
                 return Verdict::Fail(format!("tree leaves outside [sigma_min, sigma_max]: min {lmin}, max {lmax}"));
             }
             Verdict::Pass
+        }
+        "field_norm" => {
+            // N(f)(X^2) = f(X) f(-X) in Z[X]/(X^n+1): interleave the result with zeros and compare with the schoolbook product
+            let f: Vec<i128> = parse_ints(op[1]);
+            let nf: Vec<i128> = parse_ints(out);
+            let adj: Vec<i128> = f.iter().enumerate().map(|(i, &c)| if i % 2 == 0 { c } else { -c }).collect();
+            let prod = negacyc(&f, &adj);
+            let mut lifted = vec![0i128; f.len()];
+            for (i, &c) in nf.iter().enumerate() {
+                if 2 * i < lifted.len() {
+                    lifted[2 * i] = c;
+                }
+            }
+            if nf.len() * 2 == f.len() && prod == lifted {
+                Verdict::Pass
+            } else {
+                Verdict::Fail("field_norm(f)(X^2) != f(X) * f(-X) in Z[X]/(X^n+1)".into())
+            }
+        }
+        "galois_adjoint" => {
+            let f: Vec<i128> = parse_ints(op[1]);
+            let a: Vec<i128> = parse_ints(out);
+            if a.len() == f.len() && f.iter().zip(a.iter()).enumerate().all(|(i, (&x, &y))| y == if i % 2 == 0 { x } else { -x }) {
+                Verdict::Pass
+            } else {
+                Verdict::Fail("galois_adjoint(f) != f(-X)".into())
+            }
+        }
+        "lift_poly" => {
+            let f: Vec<i128> = parse_ints(op[1]);
+            let a: Vec<i128> = parse_ints(out);
+            if a.len() == 2 * f.len() && (0..a.len()).all(|i| a[i] == if i % 2 == 0 { f[i / 2] } else { 0 }) {
+                Verdict::Pass
+            } else {
+                Verdict::Fail("lift_next_cyclotomic(f) != f(X^2)".into())
+            }
+        }
+        "lift_step" => {
+            // F = F'(X^2) g(-X), G = G'(X^2) f(-X): then f G - g F = (N(f) G' - N(g) F')(X^2), checked over Z
+            let (f, g, cf, cg): (Vec<i128>, Vec<i128>, Vec<i128>, Vec<i128>) = (parse_ints(op[1]), parse_ints(op[2]), parse_ints(op[3]), parse_ints(op[4]));
+            let p: Vec<&str> = out.split(' ').collect();
+            let (bf, bg): (Vec<i128>, Vec<i128>) = (parse_ints(p[0]), parse_ints(p[1]));
+            let n = f.len();
+            let adj = |v: &Vec<i128>| -> Vec<i128> { v.iter().enumerate().map(|(i, &c)| if i % 2 == 0 { c } else { -c }).collect() };
+            let norm = |v: &Vec<i128>| -> Vec<i128> { negacyc(v, &adj(v)).iter().step_by(2).cloned().collect() };
+            let small = ntru_lhs(&norm(&f), &norm(&g), &cf, &cg);
+            let mut want = vec![0i128; n];
+            for (i, &c) in small.iter().enumerate() {
+                want[2 * i] = c;
+            }
+            if bf.len() == n && bg.len() == n && ntru_lhs(&f, &g, &bf, &bg) == want {
+                Verdict::Pass
+            } else {
+                Verdict::Fail("lifting step: f*G - g*F != (N(f) G' - N(g) F')(X^2)".into())
+            }
         }
         "key_check" => {
             if out == "ok" {
